@@ -150,8 +150,19 @@ func (e *Entry) addr(pop *Population) (string, []byte) {
 }
 
 func (e *Entry) attData() *pb.AttestationData {
-	return &pb.AttestationData{Slot: e.Slot, CommitteeIndex: e.CIdx, BeaconBlockRoot: e.Block,
-		Source: &pb.Checkpoint{Epoch: e.Src, Root: e.SRoot}, Target: &pb.Checkpoint{Epoch: e.Tgt, Root: e.TRoot}}
+	return &pb.AttestationData{Slot: e.Slot, CommitteeIndex: e.CIdx, BeaconBlockRoot: own(e.Block),
+		Source: &pb.Checkpoint{Epoch: e.Src, Root: own(e.SRoot)}, Target: &pb.Checkpoint{Epoch: e.Tgt, Root: own(e.TRoot)}}
+}
+
+// own returns a copy of a byte field with the same length and capacity: what the code under test is handed is its own,
+// as it is behind a wire decoder - whatever it does to it, the harness still knows what it asked for.
+func own(b []byte) []byte {
+	if b == nil {
+		return nil
+	}
+	c := make([]byte, len(b), cap(b))
+	copy(c, b)
+	return c
 }
 
 func setAttID(r *pb.SignBeaconAttestationRequest, name string, key []byte) {
@@ -210,7 +221,7 @@ func (o *Op) ExecVia(ctx context.Context, pop *Population, api signerAPI) (res *
 	case "att":
 		e := &o.Entries[0]
 		name, key := e.addr(pop)
-		req := &pb.SignBeaconAttestationRequest{Domain: e.Domain, Data: e.attData()}
+		req := &pb.SignBeaconAttestationRequest{Domain: own(e.Domain), Data: e.attData()}
 		setAttID(req, name, key)
 		one(api.SignBeaconAttestation(ctx, req))
 	case "atts":
@@ -218,7 +229,7 @@ func (o *Op) ExecVia(ctx context.Context, pop *Population, api signerAPI) (res *
 		for i := range o.Entries {
 			e := &o.Entries[i]
 			name, key := e.addr(pop)
-			r := &pb.SignBeaconAttestationRequest{Domain: e.Domain, Data: e.attData()}
+			r := &pb.SignBeaconAttestationRequest{Domain: own(e.Domain), Data: e.attData()}
 			setAttID(r, name, key)
 			req.Requests = append(req.Requests, r)
 		}
@@ -226,8 +237,8 @@ func (o *Op) ExecVia(ctx context.Context, pop *Population, api signerAPI) (res *
 	case "prop":
 		e := &o.Entries[0]
 		name, key := e.addr(pop)
-		req := &pb.SignBeaconProposalRequest{Domain: e.Domain, Data: &pb.BeaconBlockHeader{
-			Slot: e.PSlot, ProposerIndex: e.PIdx, ParentRoot: e.Parent, StateRoot: e.State, BodyRoot: e.Body}}
+		req := &pb.SignBeaconProposalRequest{Domain: own(e.Domain), Data: &pb.BeaconBlockHeader{
+			Slot: e.PSlot, ProposerIndex: e.PIdx, ParentRoot: own(e.Parent), StateRoot: own(e.State), BodyRoot: own(e.Body)}}
 		if key != nil {
 			req.Id = &pb.SignBeaconProposalRequest_PublicKey{PublicKey: key}
 		} else {
@@ -237,7 +248,7 @@ func (o *Op) ExecVia(ctx context.Context, pop *Population, api signerAPI) (res *
 	case "gen":
 		e := &o.Entries[0]
 		name, key := e.addr(pop)
-		req := &pb.SignRequest{Data: e.Data, Domain: e.Domain}
+		req := &pb.SignRequest{Data: own(e.Data), Domain: own(e.Domain)}
 		if key != nil {
 			req.Id = &pb.SignRequest_PublicKey{PublicKey: key}
 		} else {
@@ -249,7 +260,7 @@ func (o *Op) ExecVia(ctx context.Context, pop *Population, api signerAPI) (res *
 		for i := range o.Entries {
 			e := &o.Entries[i]
 			name, key := e.addr(pop)
-			r := &pb.SignRequest{Data: e.Data, Domain: e.Domain}
+			r := &pb.SignRequest{Data: own(e.Data), Domain: own(e.Domain)}
 			if key != nil {
 				r.Id = &pb.SignRequest_PublicKey{PublicKey: key}
 			} else {
